@@ -186,7 +186,7 @@ func streamStd(r *rng, n int, pfx string) {
 	for i := 0; i < n; i++ {
 		id := fmt.Sprintf("%s%d", pfx, i)
 		c := cfgFor(r)
-		switch r.n(7) {
+		switch r.n(8) {
 		case 0: // dynamic values: Marshal
 			v := dynOf(genValue(r, c, 0))
 			res := guarded(func() string {
@@ -311,6 +311,36 @@ func streamStd(r *rng, n int, pfx string) {
 				return "same"
 			})
 			emit("STD %s encoder-stream => %s", id, res)
+		case 6: // run-time generated struct types with tags: Marshal and Unmarshal against encoding/json
+			typ := genStructType(r, 2)
+			val := reflect.New(typ).Elem()
+			fillValue(r, val, 2)
+			// a text to decode: the marshalled value with its member names re-cased now and then, plus extras
+			okText, _ := stdjson.Marshal(val.Interface())
+			text := recase(r, okText)
+			res := guarded(func() string {
+				a, ae := ijson.Marshal(val.Interface())
+				b, be := stdjson.Marshal(val.Interface())
+				if sm := same(a, ae, b, be); sm != "same" {
+					return sm
+				}
+				pa, pb := reflect.New(typ), reflect.New(typ)
+				ue, ve := ijson.Unmarshal(text, pa.Interface()), stdjson.Unmarshal(text, pb.Interface())
+				if (ue == nil) != (ve == nil) {
+					return "diff:error"
+				}
+				// each decoded value printed by its own library (the fork's Number type is its own)
+				x, xe := ijson.Marshal(pa.Interface())
+				y, ye := stdjson.Marshal(pb.Interface())
+				if sm := same(x, xe, y, ye); sm != "same" {
+					return "diff:value"
+				}
+				return "same"
+			})
+			if os.Getenv("JP_TRACE") != "" && res != "same" {
+				fmt.Fprintf(os.Stderr, "TRACE reflect-struct %s %s\n  type %s\n  value %s\n  text %s\n", id, res, typ.String(), okText, text)
+			}
+			emit("STD %s reflect-struct => %s", id, res)
 		case 5: // Decoder stream driven by a random PROGRAM of Token / More / Decode calls; Decode targets
 			// are often of the wrong type, and the program goes on after such a (non-fatal) error
 			var sb bytes.Buffer
@@ -935,4 +965,180 @@ func emitCli(id, pkg, bin string, stdin []byte, args, fields []string, texts [][
 	toks = append(toks, fields...)
 	toks = append(toks, "=>", hx(so.Bytes()), strconv.Itoa(exit), hx(libOut), strconv.Itoa(libExit), strconv.Itoa(se.Len()))
 	emit("%s", strings.Join(toks, " "))
+}
+
+// ---------- run-time generated struct types (C17: tags, embedding, field-name matching) ----------
+
+var fieldNames = []string{"A", "B", "Name", "NAME", "Name2", "X1", "X_1", "Key", "KEY", "Ab", "AB", "Inner", "Val", "K9", "Zeta"}
+var tagNames = []string{"", "", "a", "A", "name", "Name", "k9", "K9", "x-1", "x_1", "ſ", "K", "k", "-", "with space", "é"}
+
+func genStructType(r *rng, depth int) reflect.Type {
+	n := 1 + r.n(5)
+	var fs []reflect.StructField
+	used := map[string]bool{}
+	for i := 0; i < n; i++ {
+		name := r.pick(fieldNames)
+		if used[name] {
+			continue
+		}
+		used[name] = true
+		var t reflect.Type
+		switch k := r.n(12); {
+		case k == 0:
+			t = reflect.TypeOf(int(0))
+		case k == 1:
+			t = reflect.TypeOf("")
+		case k == 2:
+			t = reflect.TypeOf(true)
+		case k == 3:
+			t = reflect.TypeOf(float64(0))
+		case k == 4:
+			t = reflect.TypeOf((*int)(nil))
+		case k == 5:
+			t = reflect.TypeOf([]string(nil))
+		case k == 6:
+			t = reflect.TypeOf(map[string]int(nil))
+		case k == 7:
+			t = reflect.TypeOf((*interface{})(nil)).Elem()
+		case k == 8:
+			t = reflect.TypeOf(uint8(0))
+		case k == 9:
+			t = reflect.TypeOf([]byte(nil))
+		case depth > 0 && k == 10:
+			t = genStructType(r, depth-1)
+		case depth > 0:
+			t = reflect.PtrTo(genStructType(r, depth-1))
+		default:
+			t = reflect.TypeOf(int64(0))
+		}
+		f := reflect.StructField{Name: name, Type: t}
+		tag := r.pick(tagNames)
+		var opts string
+		if r.chance(1, 3) {
+			opts += ",omitempty"
+		}
+		if r.chance(1, 4) {
+			opts += ",string"
+		}
+		if tag != "" || opts != "" {
+			f.Tag = reflect.StructTag(`json:"` + tag + opts + `"`)
+		}
+		// an embedded struct (its fields are promoted unless it is tagged)
+		if t.Kind() == reflect.Struct && r.chance(1, 2) {
+			f.Anonymous = true
+		}
+		fs = append(fs, f)
+	}
+	defer func() { recover() }()
+	return safeStructOf(fs)
+}
+
+func safeStructOf(fs []reflect.StructField) (t reflect.Type) {
+	defer func() {
+		if recover() != nil {
+			// reflect refuses some combinations (e.g. embedded fields): fall back to plain fields
+			for i := range fs {
+				fs[i].Anonymous = false
+			}
+			t = reflect.StructOf(fs)
+		}
+	}()
+	return reflect.StructOf(fs)
+}
+
+func fillValue(r *rng, v reflect.Value, depth int) {
+	switch v.Kind() {
+	case reflect.Int, reflect.Int64:
+		v.SetInt(int64(r.n(5)) - 2)
+	case reflect.Uint8:
+		v.SetUint(uint64(r.n(3)))
+	case reflect.String:
+		if r.chance(2, 3) {
+			v.SetString(r.pick(strPool))
+		}
+	case reflect.Bool:
+		v.SetBool(r.chance(1, 2))
+	case reflect.Float64:
+		v.SetFloat([]float64{0, 1, -0.5, 1e21, 1e-7, 100, 3.25}[r.n(7)])
+	case reflect.Ptr:
+		if r.chance(1, 2) {
+			v.Set(reflect.New(v.Type().Elem()))
+			fillValue(r, v.Elem(), depth)
+		}
+	case reflect.Slice:
+		if v.Type().Elem().Kind() == reflect.Uint8 {
+			if r.chance(1, 2) {
+				v.SetBytes([]byte(r.pick(strPool)))
+			}
+		} else if r.chance(2, 3) {
+			n := r.n(3)
+			s := reflect.MakeSlice(v.Type(), n, n)
+			for i := 0; i < n; i++ {
+				fillValue(r, s.Index(i), depth)
+			}
+			v.Set(s)
+		}
+	case reflect.Map:
+		if r.chance(2, 3) {
+			m := reflect.MakeMap(v.Type())
+			for i := r.n(3); i > 0; i-- {
+				m.SetMapIndex(reflect.ValueOf(r.pick(plainNames)), reflect.ValueOf(r.n(9)))
+			}
+			v.Set(m)
+		}
+	case reflect.Interface:
+		if r.chance(2, 3) {
+			if d := dynOf(genValue(r, genCfg{depth: 1, maxMember: 2, nullW: 2}, 1)); d != nil {
+				v.Set(reflect.ValueOf(d))
+			}
+		}
+	case reflect.Struct:
+		for i := 0; i < v.NumField(); i++ {
+			if !v.Field(i).CanSet() {
+				continue
+			}
+			if v.Field(i).Kind() == reflect.String && strings.Contains(string(v.Type().Field(i).Tag), ",string") {
+				// quoted twice: keep U+0008/U+000C out (their spelling differs between Go releases and
+				// the one-level normalisation does not reach inside the inner literal)
+				v.Field(i).SetString(r.pick([]string{"", "s", "a\"b", "<>&", "é", "1", "true", "null", "\u2028"}))
+				continue
+			}
+			fillValue(r, v.Field(i), depth-1)
+		}
+	}
+}
+
+// the same JSON text with some member names in another case, a duplicate or an unknown member
+func recase(r *rng, t []byte) []byte {
+	v, err := parseJV(t)
+	if err != nil {
+		return t
+	}
+	var walk func(x *jv)
+	walk = func(x *jv) {
+		switch x.kind {
+		case kObj:
+			for i := range x.keys {
+				switch r.n(6) {
+				case 0:
+					x.keys[i] = strings.ToUpper(x.keys[i])
+				case 1:
+					x.keys[i] = strings.ToLower(x.keys[i])
+				case 2:
+					x.keys[i] = strings.Title(strings.ToLower(x.keys[i]))
+				}
+				walk(x.vals[i])
+			}
+			if r.chance(1, 4) {
+				x.keys = append(x.keys, r.pick([]string{"unknown", "A", "name", "K", "k9", "\u017f"}))
+				x.vals = append(x.vals, jnum("7"))
+			}
+		case kArr:
+			for _, e := range x.arr {
+				walk(e)
+			}
+		}
+	}
+	walk(v)
+	return spell{r.n(2), r}.text(v)
 }
